@@ -88,7 +88,9 @@ func (s *checkpointStore) runBackgroundStore(
 			return
 		}
 
+		verifBg("tick")
 		cp, err := getCheckpoint(ctx)
+		verifBg("snapshot")
 		if err != nil {
 			log.Debug("DASer coordinator checkpoint is unavailable")
 			continue
